@@ -269,7 +269,8 @@ def gen_dataset_case(rng, confirm, i):
             "bad_schema": rng.randrange(1, k) if bad_schema else None, "dup": dup, "relative": relative,
             "junk": rng.random() < 0.3, "dir_slash": rng.random() < 0.3,
             # one file with the same columns in another order (columns are matched by name; with verify such a list is refused)
-            "colperm": rng.randrange(k) if (not verify and shape != "subdatasets" and rng.random() < 0.2) else None}
+            "colperm": rng.randrange(k) if (not verify and shape != "subdatasets" and rng.random() < 0.3) else None,
+            "colperm_seed": rng.randrange(1000)}
 
 
 def _frame(spec, bad=False):
@@ -318,8 +319,12 @@ def check_dataset(case, root, pq, ctx=None, verbose=False):
     for j, spec in enumerate(case["files"]):
         d = os.path.join(root, *spec["dir"])
         df = _frame(spec, bad=(case["bad_schema"] == j))
-        if case.get("colperm") == j:
-            df = df[list(df.columns)[::-1]]
+        if case.get("colperm") == j:      # the same columns in another order: chunk order differs between the files (C14_concat_chunk_order)
+            import random as _r
+            cols_p = list(df.columns)[::-1]
+            if case.get("colperm_seed") is not None and case["colperm_seed"] % 2:
+                _r.Random(case["colperm_seed"]).shuffle(cols_p)
+            df = df[cols_p]
         if shape == "subdatasets":
             df["k"] = pd.Series([["a", "b"][x % 2] for x in range(len(df))], dtype="str")
             if len(df) == 0:
@@ -868,7 +873,7 @@ def check_pair(case, root, pq, ctx=None, verbose=False):
 
 
 def _replayable(case):
-    return {k: case.get(k) for k in ("shape", "files", "root_mode", "cat_mode", "verify", "bad_schema", "dup", "relative", "junk", "dir_slash", "colperm")}
+    return {k: case.get(k) for k in ("shape", "files", "root_mode", "cat_mode", "verify", "bad_schema", "dup", "relative", "junk", "dir_slash", "colperm", "colperm_seed")}
 
 
 def replay(rep):
